@@ -81,13 +81,20 @@ func (g *docGen) value(depth int) *model.Value {
 		n := rapid.IntRange(0, g.o.Width).Draw(t, "sn")
 		s := model.NewSeq()
 		// homogeneous sequences are more useful to sort/compare/group
-		homog := rapid.IntRange(0, 2).Draw(t, "homog")
+		homog := rapid.IntRange(0, 3).Draw(t, "homog")
 		for i := 0; i < n; i++ {
 			switch homog {
 			case 0:
 				s.Elem = append(s.Elem, g.value(depth-1))
 			case 1:
 				s.Elem = append(s.Elem, model.NewInt(int64(rapid.IntRange(-3, 9).Draw(t, "hi"))))
+			case 3:
+				// a sequence of sequences of different lengths
+				in := model.NewSeq()
+				for j := rapid.IntRange(0, 5).Draw(t, "inl"); j > 0; j-- {
+					in.Elem = append(in.Elem, g.scalar())
+				}
+				s.Elem = append(s.Elem, in)
 			default:
 				m := model.NewMap()
 				m.Set("k", model.NewInt(int64(rapid.IntRange(0, 3).Draw(t, "hk"))))
@@ -275,6 +282,25 @@ func (g *exprGen) step(ctx []*model.Value, env ref.Env, depth int) *ref.E {
 		case 3, 4:
 			return &ref.E{Op: "idx", I: ip(rapid.IntRange(-n-1, n+1).Draw(t, "ix"))}
 		case 5, 6:
+			nseq := 0
+			if c != nil {
+				for _, el := range c.Elem {
+					if el.K == model.Seq {
+						nseq++
+					}
+				}
+			}
+			if nseq >= 2 && nseq == n && rapid.Bool().Draw(t, "inner") {
+				// slice every inner sequence: bounds must be worked out per node
+				m := len(c.Elem[rapid.IntRange(0, n-1).Draw(t, "which")].Elem)
+				in := &ref.E{Op: "slice"}
+				if rapid.Bool().Draw(t, "openend") {
+					in.I = ip(rapid.IntRange(0, m).Draw(t, "is1"))
+				} else {
+					in.J = ip(rapid.IntRange(-m, m).Draw(t, "is2"))
+				}
+				return &ref.E{Op: "pipe", A: []*ref.E{{Op: "splat"}, in}}
+			}
 			e := &ref.E{Op: "slice"}
 			if rapid.IntRange(0, 3).Draw(t, "sf") > 0 {
 				e.I = ip(rapid.IntRange(-n-2, n+2).Draw(t, "s1"))
@@ -700,8 +726,30 @@ func (g *exprGen) expr(ctx []*model.Value, env ref.Env, depth int) *ref.E {
 				s = &ref.E{Op: "bin", S: rapid.SampledFrom(ops).Draw(t, "xop"), A: []*ref.E{l, r}}
 			}
 		case 3:
-			if depth > 0 && len(g.vars) > 0 {
+			if len(g.vars) > 0 {
 				s = &ref.E{Op: "var", S: rapid.SampledFrom(g.vars).Draw(t, "uv")}
+			}
+		case 4:
+			if depth > 0 {
+				// binding: names come from a tiny pool so that nested scopes re-bind them
+				v := rapid.SampledFrom([]string{"x", "y"}).Draw(t, "bv")
+				one := cur[:minInt(1, len(cur))]
+				bind := g.step(one, env, depth-1)
+				vals := g.evalOr(bind, one, env)
+				if len(vals) >= 1 {
+					saved := g.vars
+					g.vars = append(append([]string{}, g.vars...), v)
+					body := g.expr(one, env.With(v, vals[0]), depth-1)
+					if rapid.Bool().Draw(t, "usev") {
+						body = &ref.E{Op: "collect", A: []*ref.E{{Op: "union", A: []*ref.E{body, {Op: "var", S: v}}}}}
+					}
+					g.vars = saved
+					s = &ref.E{Op: "as", S: v, A: []*ref.E{bind, body}}
+					if len(g.vars) > 0 && rapid.Bool().Draw(t, "after") {
+						// read an outer variable after the inner scope has closed
+						s = &ref.E{Op: "collect", A: []*ref.E{{Op: "union", A: []*ref.E{s, {Op: "var", S: rapid.SampledFrom(g.vars).Draw(t, "ov")}}}}}
+					}
+				}
 			}
 		}
 		if s == nil {
